@@ -123,14 +123,18 @@ def render(unc, cfg, a, files, obs=()):
             cmd.append("-s")
     stdin = None
     lst = None
+    # the same files spelled differently ('./F', './/F'): the spelling is not part of (bytes, language, configuration, file name)
+    sp = "./" if "dot" in obs else (".//" if "dd" in obs else "")
+    if sp and a["dest"] == "osame":
+        cmd[cmd.index("-o") + 1] = sp + files[0].name
     if a["src"] == "stdin":
         stdin = files[0].src
     elif a["src"] == "f":
-        cmd += ["-f", files[0].name]
+        cmd += ["-f", sp + files[0].name]
     elif a["src"] == "pos":
-        cmd += [f.name for f in files]
+        cmd += [sp + f.name for f in files]
     elif a["src"] == "F":
-        lst = "".join(f.name + "\n" for f in files)
+        lst = "".join(sp + f.name + "\n" for f in files)
         cmd += ["-F", "aux_list.txt"]
     return cmd, stdin, lst
 
